@@ -35,7 +35,7 @@ META = {
                  "refutes difference from the documented estimators; explorer-enumerated partitions / search outcomes",
     "explanation": "bounded SMT check over all histories of bounded length",
     "bounds": {"quick": {"dual_averaging_updates": 4, "chains": "1-3", "positions": "<= 4 (dim 1-2) for the variance adapter, 2 for the dense covariance adapter", "search_iters": 5},
-               "thorough": {"dual_averaging_updates": 6, "positions": "<= 5 (variance), <= 3 (covariance)"}},
+               "thorough": {"dual_averaging_updates": 6, "positions": "<= 5 (variance), 2 (covariance, one or two chains)"}},
     "outside": "floating-point stability for large offsets relative to the spread (a round-off property; exact arithmetic cannot "
                "see it); histories longer than the bound",
     "stubs": ["math.exp / math.log as imported into mici.adapters: uninterpreted EXP/LOG on symbolic arguments", "x**kappa: uninterpreted POW",
@@ -328,8 +328,10 @@ def cases(tier):
         out.append(Case(f"dual/chains/{red}", run_group, {"probs": [("dual", {"T": 2, "n_chain": 3 if th else 2, "reducer": red})]}, timeout_s=900))
     for cov in (False, True):
         for dim in ((1, 2) if not cov else (2,)):
-            for n in (((2, 3, 4, 5) if not cov else (2, 3)) if th else (2, 3, 4)):
+            for n in (((2, 3, 4, 5) if not cov else (2,)) if th else (2, 3, 4)):
                 parts = _partitions(n, 3)
+                if cov and th:
+                    parts = [(0, 0), (0, 1)]  # (three samples: > 25 min per partition, not registered)
                 if not th and n == 4:
                     parts = [p for p in parts if max(p) <= 1] + [(0, 1, 2, 2), (2, 0, 1, 0), (1, 1, 2, 0)]
                 if cov and not th:
